@@ -633,10 +633,6 @@ namespace Geo
 
 /-! ## concrete documents -/
 
-/-- a finite JSON number whose source text is its canonical text -/
-def jnum (v : Rat) (s : String) : JVal := .num true v s s s
-def jstr (s : String) : JVal := .str ("\"" ++ s ++ "\"") s
-def jmem (k : String) (v : JVal) : String × String × JVal := ("\"" ++ k ++ "\"", k, v)
 
 /-- `{"type":"LineString","coordinates":[[0,0],[10,0,1]]}` -/
 def docD11 : JVal :=
